@@ -459,7 +459,7 @@ def run_item(item):
                         }
                     )
             if len(res["samples"]) < 1 and tripped_at is not None:
-                res["samples"].append({"class": cls, "cfg": cfg, "values": list(seq), "observed(tripped,requests,releases)": [list(o) for o in obs]})
+                res["samples"].append({"class": cls, "cfg": cfg, "values": list(seq), "observed(tripped,requests,releases,event_pending)": [list(o) for o in obs]})
     # distinct object states reached: (configuration, tripped, event pending)
     raw = res["states"]
     res["states"] = {_h((ck, running, sleep, a, b)) for a, b in raw}
